@@ -1,4 +1,6 @@
 #!/bin/bash
-# usage: scripts/seeded_queue.sh <parallelism> ID...   — evaluates /tmp/seed-<ID>/SEEDED as seeded/<ID>-a
-par=$1; shift
-printf '%s\n' "$@" | xargs -P "$par" -I{} sh -c 'python3 /verif/scripts/seeded_eval.py {} /tmp/seed-{}/SEEDED {}-a > /verif/.work/seed-{}.out 2>&1'
+# usage: scripts/seeded_queue.sh <parallelism> <suffix a|b> ID...
+#   suffix a: evaluates /tmp/seed-<ID>/SEEDED as seeded/<ID>-a ; suffix b: /tmp/seed2-<ID>-SEEDED as seeded/<ID>-b
+par=$1; suf=$2; shift 2
+if [ "$suf" = a ]; then pat='/tmp/seed-{}/SEEDED'; else pat='/tmp/seed2-{}-SEEDED'; fi
+printf '%s\n' "$@" | xargs -P "$par" -I{} sh -c "python3 /verif/scripts/seeded_eval.py {} $pat {}-$suf > /verif/.work/seed-{}-$suf.out 2>&1"
